@@ -151,13 +151,8 @@ partial def go (m : Sys) (sp : SpecSt) (tags : List String) : List String → Ve
               | ["disc", i] => some (if sp2.selfDestroy.contains (i.toNat?.getD 0) then "disc.selfdestroy" else "disc")
               | ["fut", _, st] => some ("fut." ++ st)
               | _ => none
-            -- a socket dies inside its disconnect handler / at the end of the history with an echoed receive buffer queued
-            let tag3 := (mEvs.filterMap fun e => match e with
-              | ["disc", i] =>
-                let i := i.toNat?.getD 0
-                if sp2.selfDestroy.contains i && s.lent (s.sock i) > 0 then some "disc.echoed" else none
-              | _ => none) ++
-              (if op?.isNone && m.socks.any (fun i => (s.sock i).alive && s.lent (s.sock i) > 0) then ["end.echoed"] else [])
+            -- the history ends (the harness destroys what is left) with an echoed receive buffer still queued
+            let tag3 := if op?.isNone && m.socks.any (fun i => (s.sock i).alive && s.lent (s.sock i) > 0) then ["end.echoed"] else []
             go m' sp2 (tag ++ tag2 ++ tag3 ++ tags) rest'
 
 def runCase (body : List String) : Verdict := go {} {} [] body
